@@ -10,12 +10,89 @@ import Frrs.FileChange
 import Frrs.Replace
 import Frrs.Identity
 import Frrs.Commit
+import Frrs.Filter
 namespace Frrs.Ops
 open Frrs Frrs.Wire
 
 def mkPathOpts (invert : Bool) (paths globs : List Bytes) (renames : List (Bytes × Bytes))
     (hasRegex : Bool) (rxHits : List Bytes) : PathOpts :=
   { paths, globs, hasRegex, regexMatch := fun p => rxHits.contains p, invert, renames }
+
+/-- options of the `filter` op: `k=v;k=v;…` -/
+def kv (opts : String) (k : String) : Option String :=
+  (opts.splitOn ";").findSome? fun it =>
+    match it.splitOn "=" with
+    | [a, b] => if a == k then some b else none
+    | _ => none
+
+def optPairs (opts : String) (k : String) : Option (Option (List (Bytes × Bytes))) :=
+  match kv opts k with
+  | none => some none
+  | some "none" => some none
+  | some v => (decPairs v).map some
+
+def optPair (opts : String) (k : String) : Option (Option (Bytes × Bytes)) :=
+  match kv opts k with
+  | none => some none
+  | some "none" => some none
+  | some v => (decPair v).map some
+
+def pruneMode (t : String) : Option PruneMode :=
+  if t == "never" then some .never else if t == "auto" then some .auto else if t == "always" then some .always else none
+
+def fakeId (m : Nat) : Bytes :=
+  let hex := (Nat.toDigits 16 m).map fun c => c.toNat.toUInt8
+  List.replicate (40 - hex.length) 0x30 ++ hex
+
+def parseFOpts (opts : String) : Option FOpts := do
+  let g (k : String) (d : String) : String := (kv opts k).getD d
+  let paths ← decList (g "paths" "-")
+  let globs ← decList (g "globs" "-")
+  let renames ← decPairs (g "ren" "-")
+  let rxhits ← decList (g "rxhits" "-")
+  let strip ← decList (g "strip" "-")
+  let oversz ← decList (g "oversize" "-")
+  let mm ← (match kv opts "mailmap" with
+    | none => some none
+    | some "none" => some none
+    | some v => if v == "-" then some (some []) else ((v.splitOn ",").mapM fun (it : String) =>
+        match it.splitOn ":" with
+        | [a, b, c] => do pure ({ oldEmail := ← decBytes a, newName := ← decBytes b, newEmail := ← decBytes c } : MailmapRule)
+        | _ => none).map some)
+  -- rule files given as raw bytes are parsed by the model's own parsers
+  let fileRules (k : String) (parse : Bytes → Option (List (Bytes × Bytes))) : Option (Option (List (Bytes × Bytes))) :=
+    match kv opts k with
+    | none => some none
+    | some v => do let c ← decBytes v; let r ← parse c; pure (some r)
+  let msgF ← fileRules "msgfile" (fun c => some (parseLiteralRules c))
+  let blobF ← fileRules "blobfile" (fun c => some (parseLiteralRules c))
+  let emailF ← fileRules "emailfile" parseAuthorRules
+  let authorF ← fileRules "authorfile" parseAuthorRules
+  let committerF ← fileRules "committerfile" parseAuthorRules
+  let mmF ← (match kv opts "mailmapfile" with
+    | none => some none
+    | some v => do let c ← decBytes v; let r ← parseMailmap c; pure (some r))
+  let stripF ← (match kv opts "stripfile" with
+    | none => some []
+    | some v => do let c ← decBytes v; parseStripIds c)
+  let orElse {α} (a b : Option α) : Option α := match a with | some x => some x | none => b
+  let oi (k : String) : Option (Option Int) := match kv opts k with
+    | none => some none | some "none" => some none | some v => v.toInt?.map some
+  pure {
+    path := mkPathOpts ((g "inv" "0") == "1") paths globs renames ((g "rx" "0") == "1") rxhits
+    refs := { tagRename := ← optPair opts "tagren", branchRename := ← optPair opts "brren" }
+    maxBlob := ← (match kv opts "max" with | none => some none | some "none" => some none | some v => v.toNat?.map some)
+    stripIds := strip ++ stripF
+    shaOversize := fun sha => oversz.contains sha
+    msgRules := orElse msgF (← optPairs opts "msg")
+    blobRules := orElse blobF (← optPairs opts "blob")
+    mailmap := orElse mmF mm
+    emailRules := orElse emailF (← optPairs opts "email")
+    authorRules := orElse authorF (← optPairs opts "author")
+    committerRules := orElse committerF (← optPairs opts "committer")
+    date := { shift := ← oi "shift", set := ← oi "set" }
+    prune := { pruneEmpty := ← pruneMode (g "pe" "auto"), pruneDegenerate := ← pruneMode (g "pd" "auto"),
+               noFf := (g "noff" "0") == "1" } }
 
 def dispatch (op : String) (args : List String) : Option String :=
   match op, args with
@@ -137,6 +214,14 @@ def dispatch (op : String) (args : List String) : Option String :=
       let pr (t : String) : Option (Option (Bytes × Bytes)) := if t == "none" then some none else (decPair t).map some
       let rn ← decBytes r
       pure (encBytes ((renameRef { tagRename := ← pr tr, branchRename := ← pr br } rn).getD rn))
+  -- the whole filter: what `--dry-run --fe_stream_override` computes
+  | "filter", [opts, stream] => do
+      -- an auxiliary file the model's parsers reject = the run fails before reading the stream
+      let some o := parseFOpts opts | pure "err . . ."
+      let nmarks := ((kv opts "marks").bind (·.toNat?)).getD 0
+      let r := runBytes o (← decBytes stream)
+      let cm := commitMap (fun m => if 1 ≤ m && m ≤ nmarks then some (fakeId m) else none) r.pairs
+      pure ((if r.ok then "ok " else "err ") ++ encBytes r.out ++ " " ++ encBytes cm ++ " " ++ encBytes (refMap r.refRenames))
   | _, _ => none
 
 end Frrs.Ops
